@@ -49,7 +49,14 @@ class ToGFA1:
       gfapy.error.ValueError: If the edge is internal
     """
     self._check_not_internal("overlap")
-    return self.alignment if self._is_sid1_from() else self.alignment.complement()
+    if self._is_sid1_from():
+      return self.alignment
+    elif isinstance(self.alignment, gfapy.CIGAR):
+      # the roles of the two segments are exchanged (insertions become
+      # deletions), the direction in which the alignment is read is not
+      return gfapy.CIGAR(list(reversed(self.alignment.complement())))
+    else:
+      return self.alignment.complement()
 
   @property
   def oriented_from(self):
